@@ -5,6 +5,7 @@ import (
 	"fmt"
 	"sync"
 	"net/netip"
+	"os"
 	"reflect"
 	"runtime"
 	"strconv"
@@ -27,6 +28,7 @@ func init() {
 	ops["pkt"] = opPkt
 	ops["poison"] = opPoison
 	ops["stage"] = opStage
+	ops["allocpkt"] = opAllocPkt
 	ops["par"] = opPar
 }
 
@@ -110,9 +112,16 @@ type captureFormat struct {
 	// parallel mode: lines are attributed to the calling goroutine
 	mu     sync.Mutex
 	byGoid map[int][]string
+	// allocation measurement: only count the messages, allocate nothing
+	countOnly bool
+	count     int
 }
 
 func (c *captureFormat) Format(data interface{}) ([]byte, []byte, error) {
+	if c.countOnly {
+		c.count++
+		return nil, nil, nil
+	}
 	var line string
 	m, ok := data.(*protoproducer.ProtoProducerMessage)
 	if !ok {
@@ -373,4 +382,41 @@ func opPar(st *state, args []string) []string {
 		lines = append(lines, o.lines...)
 	}
 	return lines
+}
+
+// allocpkt <pid> <ip> <port> <recv-ns> <hex> <widest>: DecodeFlow with the bytes requested from the
+// allocator measured (runtime.MemStats.TotalAlloc) against the budget of C02:
+// 16 MiB + 256 bytes x datagram length x (1 + fields of the widest referenced template)
+func opAllocPkt(st *state, args []string) []string {
+	if len(args) != 6 {
+		return []string{"bad-op"}
+	}
+	pe, ok := st.extra["pipe:"+args[0]].(*pipeEntry)
+	ipb, ok1 := unhex(args[1])
+	port, err1 := strconv.ParseUint(args[2], 10, 16)
+	ns, err2 := strconv.ParseInt(args[3], 10, 64)
+	d, ok2 := unhex(args[4])
+	widest, err3 := strconv.Atoi(args[5])
+	addr, ok3 := addrOf(ipb)
+	if !ok || !ok1 || !ok2 || !ok3 || err1 != nil || err2 != nil || err3 != nil {
+		return []string{"bad-op"}
+	}
+	msg := &utils.Message{Src: netip.AddrPortFrom(addr, uint16(port)), Dst: netip.AddrPortFrom(netip.MustParseAddr("127.0.0.1"), 2055),
+		Payload: d, Received: time.Unix(0, ns)}
+	pe.cap.countOnly = true
+	pe.cap.count = 0
+	defer func() { pe.cap.countOnly = false }()
+	var before, after runtime.MemStats
+	runtime.GC()
+	runtime.ReadMemStats(&before)
+	err := pe.pipe.DecodeFlow(msg)
+	runtime.ReadMemStats(&after)
+	alloc := after.TotalAlloc - before.TotalAlloc
+	budget := uint64(16<<20) + 256*uint64(len(d))*uint64(1+widest)
+	verdict := "ok"
+	if alloc > budget {
+		verdict = "exceeded"
+	}
+	fmt.Fprintf(os.Stderr, "alloc: len=%d widest=%d alloc=%d budget=%d\n", len(d), widest, alloc, budget)
+	return []string{fmt.Sprintf("%s n=%d budget=%s", classify(err), pe.cap.count, verdict)}
 }
